@@ -223,6 +223,9 @@ def evaluate(wname, opt, times, layouts):
         elif wname == "MicroDVDWriter":
             parsed = [(c["start"], c["end"]) for c in parsers.parse_microdvd(doc)]
             fr = [(cands(s, 25, 1000000), cands(e, 25, 1000000)) for s, e in times]
+            # "{0}{0}" is the format's frame-rate declaration, not a cue: a caption that lies inside the first frame is
+            # written as {0}{1} (the format cannot say it any closer)
+            fr = [(cs_, (ce_ | {1}) if (0 in cs_ and 0 in ce_) else ce_) for cs_, ce_ in fr]
             err = match_plain(parsed, fr)
         elif wname in ("DFXPWriter", "SinglePositioningDFXPWriter", "LegacyDFXPWriter"):
             t = parsers.parse_ttml(doc)
